@@ -21,6 +21,7 @@ import (
 
 type rec struct {
 	tid  int
+	op   int // index of the operation (in the handle's program) that made the call
 	kind string // L U RL RU G P N
 	path string
 	data []byte
@@ -136,6 +137,7 @@ func (c *controller) loop(live int) bool {
 
 type tracedBackend struct {
 	tid   int
+	op    int // set by the handle's goroutine before each operation
 	inner backendAPI.Backend
 	tr    *tracer
 	ctl   *controller
@@ -151,52 +153,52 @@ func (b *tracedBackend) Lock() error {
 	b.gate("L")
 	err := b.inner.Lock()
 	if err == nil {
-		b.tr.add(rec{tid: b.tid, kind: "L"})
+		b.tr.add(rec{tid: b.tid, op: b.op, kind: "L"})
 	}
 	return err
 }
 func (b *tracedBackend) Unlock() error {
 	b.gate("U")
-	b.tr.add(rec{tid: b.tid, kind: "U"})
+	b.tr.add(rec{tid: b.tid, op: b.op, kind: "U"})
 	return b.inner.Unlock()
 }
 func (b *tracedBackend) RLock() error {
 	b.gate("RL")
 	err := b.inner.RLock()
 	if err == nil {
-		b.tr.add(rec{tid: b.tid, kind: "RL"})
+		b.tr.add(rec{tid: b.tid, op: b.op, kind: "RL"})
 	}
 	return err
 }
 func (b *tracedBackend) RUnlock() error {
 	b.gate("RU")
-	b.tr.add(rec{tid: b.tid, kind: "RU"})
+	b.tr.add(rec{tid: b.tid, op: b.op, kind: "RU"})
 	return b.inner.RUnlock()
 }
 func (b *tracedBackend) Get(path string) ([]byte, error) {
 	b.gate("G")
 	d, err := b.inner.Get(path)
 	cp := append([]byte{}, d...)
-	b.tr.add(rec{tid: b.tid, kind: "G", path: path, data: cp, ok: err == nil})
+	b.tr.add(rec{tid: b.tid, op: b.op, kind: "G", path: path, data: cp, ok: err == nil})
 	return d, err
 }
 func (b *tracedBackend) Put(path string, data []byte) error {
 	b.gate("P")
 	cp := append([]byte{}, data...)
 	err := b.inner.Put(path, data)
-	b.tr.add(rec{tid: b.tid, kind: "P", path: path, data: cp, ok: err == nil})
+	b.tr.add(rec{tid: b.tid, op: b.op, kind: "P", path: path, data: cp, ok: err == nil})
 	return err
 }
 func (b *tracedBackend) Rename(oldpath, newpath string) error {
 	b.gate("N")
 	err := b.inner.Rename(oldpath, newpath)
-	b.tr.add(rec{tid: b.tid, kind: "N", path: newpath, ok: err == nil})
+	b.tr.add(rec{tid: b.tid, op: b.op, kind: "N", path: newpath, ok: err == nil})
 	return err
 }
 func (b *tracedBackend) RenameNX(oldpath, newpath string) error {
 	b.gate("N")
 	err := b.inner.RenameNX(oldpath, newpath)
-	b.tr.add(rec{tid: b.tid, kind: "NX", path: newpath, ok: err == nil})
+	b.tr.add(rec{tid: b.tid, op: b.op, kind: "NX", path: newpath, ok: err == nil})
 	return err
 }
 func (b *tracedBackend) ListAll() ([]string, error) { return b.inner.ListAll() }
